@@ -209,6 +209,30 @@ func (e *Engine) verifIntrinsic(name string) Intrinsic {
 			e.setResult(st, c, e.TT.Int(int64(h(int(i.SignedVal())))))
 			return nil
 		}
+	case "verifShared":
+		// everything allocated so far is shared between the goroutines; start recording events
+		return func(e *Engine, st *State, c ssa.CallInstruction, a []Value) []*State {
+			e.SharedLimit = len(st.heap)
+			e.RecordEvents = true
+			return nil
+		}
+	case "verifAcquire":
+		return func(e *Engine, st *State, c ssa.CallInstruction, a []Value) []*State {
+			e.RecordSync(st, "lock", a[0])
+			return nil
+		}
+	case "verifRelease":
+		return func(e *Engine, st *State, c ssa.CallInstruction, a []Value) []*State {
+			e.RecordSync(st, "unlock", a[0])
+			return nil
+		}
+	case "verifFile":
+		// verifFile(content string) *os.File : a file of the engine's file model
+		return func(e *Engine, st *State, c ssa.CallInstruction, a []Value) []*State {
+			id := e.alloc(st, StructV{F: []Value{a[0].(StrV), e.TT.Int(0), e.TT.False}})
+			e.setResult(st, c, PtrV{Obj: id})
+			return nil
+		}
 	case "verifKnown":
 		return func(e *Engine, st *State, c ssa.CallInstruction, a []Value) []*State {
 			id := e.concStr(a[0], "verifKnown id")
